@@ -212,3 +212,70 @@ def counting(rows, budget):
     CountingAccessor.reads = 0
     CountingAccessor.budget = budget
     return a
+
+
+# ------------------------------------------------------------------------------- filters
+import math
+
+
+def local_cfg(rng, k, decidable_only=False):
+    """a LocalBioFilter configuration as a dict: k, run (or None), gc (lo, hi or None), motifs (or None)"""
+    run = None
+    if rng.random() < 0.7:
+        run = rng.randint(1, k) if not decidable_only else rng.randint(1, max(1, k - 1))
+        if decidable_only and run >= k:
+            run = None
+    gc = None
+    if rng.random() < 0.7:
+        grid = [0.0, 0.1, 0.2, 0.25, 0.3, 0.35, 0.4, 0.45, 0.5, 0.55, 0.6, 0.65, 0.7, 0.75, 0.8, 0.9, 1.0,
+                round(rng.random(), 3)]
+        lo = rng.choice(grid)
+        hi = rng.choice([x for x in grid if x >= lo] + [lo])
+        gc = [lo, hi]
+    motifs = None
+    if rng.random() < 0.5:
+        motifs = ["".join(rng.choice(NUC) for _ in range(rng.randint(1, k))) for _ in range(rng.randint(1, 3))]
+        if rng.random() < 0.2:
+            motifs.append(rng.choice(["AT", "GC", "ACGT", "TA"])[:k])
+    return {"k": k, "run": run, "gc": gc, "motifs": motifs}
+
+
+def make_filter(cfg):
+    return dsw.LocalBioFilter(observed_length=cfg["k"], max_homopolymer_runs=cfg["run"], gc_range=cfg["gc"],
+                              undesired_motifs=cfg["motifs"])
+
+
+def thresholds(cfg):
+    """integer thresholds equivalent to the float comparisons of LocalBioFilter.valid for integer counts:
+    gc > hi*k <-> gc > floor(hi*k); gc < lo*k <-> gc < ceil(lo*k); at > (1-lo)*k <-> at > floor((1-lo)*k)"""
+    lo, hi = cfg["gc"]
+    k = cfg["k"]
+    return math.ceil(lo * k), math.floor(hi * k), math.floor((1 - lo) * k)
+
+
+def enc_cfg(cfg):
+    """-> (header list, motif groups list) as dec_cfg in Dispatch.v expects"""
+    gmin = gmax = amax = 0
+    if cfg["gc"] is not None:
+        gmin, gmax, amax = thresholds(cfg)
+    h = [cfg["k"], int(cfg["run"] is not None), cfg["run"] or 0, int(cfg["gc"] is not None), gmin, gmax, amax,
+         int(cfg["motifs"] is not None)]
+    return h, enc_groups(cfg["motifs"] or [])
+
+
+class TableFilter(dsw.DefaultBioFilter):
+    """a user-defined filter through the documented interface valid(self, dna_string)"""
+
+    def __init__(self, k, table):
+        super().__init__(screen_name="table")
+        self.k, self.table = k, table
+
+    def valid(self, dna_string):
+        x = 0
+        for c in dna_string:
+            x = 4 * x + NUC.index(c)
+        return bool(self.table[x])
+
+
+def kmer(v, k):
+    return "".join(NUC[(v // 4 ** (k - 1 - i)) % 4] for i in range(k))
